@@ -83,4 +83,758 @@ theorem setRegs_noop (regs : Regs) (env : Env) (a : AccId) (fs : List (Field × 
       exact (h (f, x) (by simp [hfs])).symm
   · rfl
 
+
+/-! ### values computed by a list of pure statements in SSA order -/
+
+theorem mem_pureDef {l : List Stmt} {d : Var} {op : PureOp} {args : List Var} (h : Stmt.pure d op args ∈ l) :
+    d ∈ l.flatMap pureDef :=
+  List.mem_flatMap.mpr ⟨_, h, by simp [pureDef]⟩
+
+/-- after the list has run, every variable it defines holds its operation applied to the final values of the operands -/
+theorem runPure_val : ∀ (l : List Stmt) (E : Env) (d : Var) (op : PureOp) (args : List Var), pureSSA l = true →
+    Stmt.pure d op args ∈ l → runPure cfg l E d = op.eval cfg (args.map (runPure cfg l E))
+  | [], _, _, _, _, _, h => by cases h
+  | s :: r, E, d, op, args, hs, h => by
+      simp only [pureSSA, Bool.and_eq_true, List.all_eq_true, Bool.not_eq_true', List.contains_eq_mem,
+        decide_eq_false_iff_not, List.mem_append] at hs
+      obtain ⟨⟨hlater, hself⟩, hr⟩ := hs
+      simp only [runPure]
+      rcases List.mem_cons.mp h with heq | hmem
+      · subst heq
+        have hd : d ∉ r.flatMap pureDef := hlater d (Or.inl (by simp [pureDef]))
+        have ha : ∀ y ∈ args, y ∉ r.flatMap pureDef := fun y hy => hlater y (Or.inr (by simpa [pureArgs] using hy))
+        have hne : ∀ y ∈ args, y ≠ d := fun y hy => by
+          have := hself y (by simpa [pureArgs] using hy)
+          simpa [pureDef] using this
+        rw [runPure_frame cfg r _ d hd]
+        have : args.map (runPure cfg r (stepPure cfg (Stmt.pure d op args) E)) = args.map E := by
+          apply List.map_congr_left
+          intro y hy
+          rw [runPure_frame cfg r _ y (ha y hy)]
+          simp [stepPure, setEnv, hne y hy]
+        rw [this]
+        simp [stepPure, setEnv]
+      · exact runPure_val r _ d op args hr hmem
+
+/-! ### cloning a chain with renamed operands -/
+
+theorem inputChain_sub : ∀ (R : List Stmt) (need : List Var) (s : Stmt), s ∈ inputChain R need → s ∈ R
+  | [], _, _, h => by simp [inputChain] at h
+  | t :: r, need, s, h => by
+      cases t with
+      | pure d op args =>
+        simp only [inputChain] at h
+        split at h
+        · rcases List.mem_append.mp h with h | h
+          · exact List.mem_cons_of_mem _ (inputChain_sub r _ s h)
+          · simp only [List.mem_singleton] at h; subst h; exact List.mem_cons_self
+        · exact List.mem_cons_of_mem _ (inputChain_sub r _ s h)
+      | _ => simp only [inputChain] at h; exact List.mem_cons_of_mem _ (inputChain_sub r _ s h)
+
+theorem renameVar_some {m : List (Var × Var)} {x y : Var} (h : m.lookup x = some y) : renameVar m x = y := by
+  simp [renameVar, h]
+
+theorem renameVar_none {m : List (Var × Var)} {x : Var} (h : x ∉ m.map (·.1)) : renameVar m x = x := by
+  have : m.lookup x = none := by
+    rw [List.lookup_eq_none_iff]
+    intro p hp
+    simp only [bne_iff_ne, ne_eq]
+    intro hpx
+    exact h (List.mem_map.mpr ⟨p, hp, hpx.symm⟩)
+  simp [renameVar, this]
+
+theorem lookup_isSome_of_mem {m : List (Var × Var)} {x : Var} (h : x ∈ m.map (·.1)) : ∃ y, m.lookup x = some y := by
+  cases hl : m.lookup x with
+  | some y => exact ⟨y, rfl⟩
+  | none =>
+    rw [List.lookup_eq_none_iff] at hl
+    obtain ⟨p, hp, hpx⟩ := List.mem_map.mp h
+    have := hl p hp
+    simp only [bne_iff_ne, ne_eq] at this
+    exact absurd hpx.symm this
+
+/-- what the clones have computed so far: the clone of `y` holds the value `val y`, and its id is below the next fresh id -/
+structure CloneInv (val : Env) (e' : Env) (m : List (Var × Var)) (F : Nat) : Prop where
+  ok : ∀ y y', m.lookup y = some y' → e' y' = val y
+  lt : ∀ y y', m.lookup y = some y' → y' < F
+
+theorem clone_inv (pre : List Stmt) (E e : Env) (iv : Var) (F0 : Nat) (hssa : pureSSA pre = true)
+    (hfree : ∀ y, y ∉ pre.flatMap pureDef → y ≠ iv → E y = e y) :
+    ∀ (chain : List Stmt) (m : List (Var × Var)) (F : Nat) (e' : Env), F0 ≤ F → (∀ s ∈ chain, s ∈ pre) →
+      closedChain (pre.flatMap pureDef) iv chain (m.map (·.1)) = true →
+      (∀ s ∈ chain, ∀ y ∈ pureArgs s, y < F0) →
+      (∀ y, y < F0 → e' y = e y) → CloneInv (runPure cfg pre E) e' m F →
+      CloneInv (runPure cfg pre E) (runPure cfg (cloneChain chain m F).1 e') (cloneChain chain m F).2.1 (cloneChain chain m F).2.2
+      ∧ (∀ y, y < F0 → runPure cfg (cloneChain chain m F).1 e' y = e y)
+      ∧ (∀ x, x ∈ (cloneChain chain m F).2.1.map (·.1) ↔ x ∈ chain.flatMap pureDef ∨ x ∈ m.map (·.1))
+  | [], m, F, e', _, _, _, _, hag, hinv => by
+      simp only [cloneChain, runPure]
+      exact ⟨hinv, hag, fun x => by simp⟩
+  | s :: r, m, F, e', hF, hsub, hcl, hlt, hag, hinv => by
+      cases s
+      case pure d op args =>
+        simp only [closedChain, Bool.and_eq_true, List.all_eq_true, Bool.or_eq_true, List.contains_eq_mem,
+          decide_eq_true_eq, Bool.not_eq_true', decide_eq_false_iff_not, bne_iff_ne, ne_eq] at hcl
+        obtain ⟨hargs, hcl'⟩ := hcl
+        have hmem : Stmt.pure d op args ∈ pre := hsub _ List.mem_cons_self
+        have hval := runPure_val cfg pre E d op args hssa hmem
+        -- operands of the clone evaluate to the final values of the originals
+        have hops : (args.map (renameVar m)).map e' = args.map (runPure cfg pre E) := by
+          rw [List.map_map]
+          apply List.map_congr_left
+          intro y hy
+          simp only [Function.comp]
+          rcases hargs y hy with hk | ⟨hnp, hniv⟩
+          · obtain ⟨y', hy'⟩ := lookup_isSome_of_mem hk
+            rw [renameVar_some hy']
+            exact hinv.ok y y' hy'
+          · have hnk : y ∉ m.map (·.1) ∨ y ∈ m.map (·.1) := (Classical.em _).symm
+            rcases hnk with hnk | hk
+            · rw [renameVar_none hnk, hag y (hlt _ List.mem_cons_self y (by simpa [pureArgs] using hy)),
+                ← hfree y hnp hniv, runPure_frame cfg pre E y hnp]
+            · obtain ⟨y', hy'⟩ := lookup_isSome_of_mem hk
+              rw [renameVar_some hy']
+              exact hinv.ok y y' hy'
+        -- the invariant after the clone of this statement
+        let e'' : Env := setEnv e' F (op.eval cfg ((args.map (renameVar m)).map e'))
+        have hinv' : CloneInv (runPure cfg pre E) e'' ((d, F) :: m) (F + 1) := by
+          constructor
+          · intro y y' hl
+            simp only [List.lookup_cons] at hl
+            split at hl
+            · next hyd =>
+              injection hl with hl; subst hl
+              have : y = d := by simpa using hyd
+              subst this
+              show setEnv e' F _ F = _
+              simp only [setEnv, if_true, hops, hval]
+            · have hlt' := hinv.lt y y' hl
+              show setEnv e' F _ y' = _
+              simp only [setEnv]
+              rw [if_neg (Nat.ne_of_lt hlt')]
+              exact hinv.ok y y' hl
+          · intro y y' hl
+            simp only [List.lookup_cons] at hl
+            split at hl
+            · injection hl with hl; subst hl; exact Nat.lt_succ_self _
+            · exact Nat.lt_succ_of_lt (hinv.lt y y' hl)
+        have hag' : ∀ y, y < F0 → e'' y = e y := by
+          intro y hy
+          show setEnv e' F _ y = _
+          simp only [setEnv]
+          rw [if_neg (Nat.ne_of_lt (Nat.lt_of_lt_of_le hy hF))]
+          exact hag y hy
+        have ih := clone_inv pre E e iv F0 hssa hfree r ((d, F) :: m) (F + 1) e'' (by omega)
+          (fun s hs => hsub s (List.mem_cons_of_mem _ hs)) (by simpa using hcl')
+          (fun s hs => hlt s (List.mem_cons_of_mem _ hs)) hag' hinv'
+        simp only [cloneChain, runPure, stepPure]
+        refine ⟨ih.1, ih.2.1, ?_⟩
+        intro x
+        rw [ih.2.2 x]
+        simp only [List.flatMap_cons, pureDef, List.map_cons, List.mem_cons, List.mem_append, List.not_mem_nil, or_false]
+        constructor
+        · rintro (h | h | h)
+          · exact Or.inl (Or.inr h)
+          · exact Or.inl (Or.inl h)
+          · exact Or.inr h
+        · rintro ((h | h) | h)
+          · exact Or.inr (Or.inl h)
+          · exact Or.inl h
+          · exact Or.inr (Or.inr h)
+      all_goals
+        simp only [closedChain] at hcl
+        have ih := clone_inv pre E e iv F0 hssa hfree r m F e' hF
+          (fun s hs => hsub s (List.mem_cons_of_mem _ hs)) hcl
+          (fun s hs => hlt s (List.mem_cons_of_mem _ hs)) hag hinv
+        simpa [cloneChain, pureDef] using ih
+
+
+/-- **the clones compute what `pre` will compute**: run from an environment `e`, the cloned chain (with the induction
+variable renamed to `X`) leaves in the clone of every needed variable the value that `pre` gives it when the
+induction variable holds the value of `X` -/
+theorem clone_correct (pre : List Stmt) (need : List Var) (iv X : Var) (e : Env) (F0 : Nat)
+    (hssa : pureSSA pre = true) (hiv : iv ∉ pre.flatMap pureDef)
+    (hcl : closedChain (pre.flatMap pureDef) iv (inputChain pre.reverse need) [iv] = true)
+    (hcov : ∀ x ∈ need, x ∈ iv :: (inputChain pre.reverse need).flatMap pureDef ∨ x ∉ pre.flatMap pureDef)
+    (hX : X < F0) (hreads : ∀ s ∈ pre, ∀ y ∈ pureArgs s, y < F0) (hneed : ∀ x ∈ need, x < F0) :
+    (∀ x ∈ need, runPure cfg (cloneChain (inputChain pre.reverse need) [(iv, X)] F0).1 e
+        (renameVar (cloneChain (inputChain pre.reverse need) [(iv, X)] F0).2.1 x)
+      = runPure cfg pre (setEnv e iv (e X)) x)
+    ∧ (∀ y, y < F0 → runPure cfg (cloneChain (inputChain pre.reverse need) [(iv, X)] F0).1 e y = e y) := by
+  have hfree : ∀ y, y ∉ pre.flatMap pureDef → y ≠ iv → setEnv e iv (e X) y = e y := by
+    intro y _ hy; simp [setEnv, hy]
+  have hviv : runPure cfg pre (setEnv e iv (e X)) iv = e X := by
+    rw [runPure_frame cfg pre _ iv hiv]; simp [setEnv]
+  have hinit : CloneInv (runPure cfg pre (setEnv e iv (e X))) e [(iv, X)] F0 := by
+    constructor
+    · intro y y' hl
+      simp only [List.lookup_cons, List.lookup_nil] at hl
+      split at hl
+      · next hy =>
+        injection hl with hl; subst hl
+        have : y = iv := by simpa using hy
+        subst this; exact hviv.symm
+      · cases hl
+    · intro y y' hl
+      simp only [List.lookup_cons, List.lookup_nil] at hl
+      split at hl
+      · injection hl with hl; subst hl; exact hX
+      · cases hl
+  obtain ⟨hinv, hag, hkeys⟩ := clone_inv cfg pre (setEnv e iv (e X)) e iv F0 hssa hfree
+    (inputChain pre.reverse need) [(iv, X)] F0 e (Nat.le_refl _)
+    (fun s hs => List.mem_reverse.mp (inputChain_sub _ _ s hs)) (by simpa using hcl)
+    (fun s hs y hy => hreads s (List.mem_reverse.mp (inputChain_sub _ _ s hs)) y hy) (fun _ _ => rfl) hinit
+  refine ⟨?_, hag⟩
+  intro x hx
+  have hmapped : x ∈ (cloneChain (inputChain pre.reverse need) [(iv, X)] F0).2.1.map (·.1) →
+      runPure cfg (cloneChain (inputChain pre.reverse need) [(iv, X)] F0).1 e
+        (renameVar (cloneChain (inputChain pre.reverse need) [(iv, X)] F0).2.1 x)
+      = runPure cfg pre (setEnv e iv (e X)) x := by
+    intro hk
+    obtain ⟨y', hy'⟩ := lookup_isSome_of_mem hk
+    rw [renameVar_some hy']
+    exact hinv.ok x y' hy'
+  by_cases hk : x ∈ (cloneChain (inputChain pre.reverse need) [(iv, X)] F0).2.1.map (·.1)
+  · exact hmapped hk
+  · have hnk := hk
+    rw [hkeys x] at hnk
+    simp only [List.map_cons, List.map_nil, List.mem_singleton, not_or] at hnk
+    have hnp : x ∉ pre.flatMap pureDef := by
+      rcases hcov x hx with h | h
+      · rcases List.mem_cons.mp h with h | h
+        · exact absurd h hnk.2
+        · exact absurd h hnk.1
+      · exact h
+    rw [renameVar_none hk, hag x (hneed x hx), runPure_frame cfg pre _ x hnp]
+    simp [setEnv, hnk.2]
+
+/-! ### what a setup of renamed variables leaves in the registers -/
+
+theorem lookup_renamed (ρ : Var → Var) : ∀ (fs : List (Field × Var)), (fs.map (·.1)).Nodup → ∀ p ∈ fs,
+    (fs.map fun q => (q.1, ρ q.2)).lookup p.1 = some (ρ p.2)
+  | [], _, _, h => by cases h
+  | q :: r, hnd, p, hp => by
+      simp only [List.map_cons, List.nodup_cons] at hnd
+      simp only [List.map_cons, List.lookup_cons]
+      rcases List.mem_cons.mp hp with h | h
+      · subst h; simp
+      · have hne : p.1 ≠ q.1 := fun he => hnd.1 (he ▸ List.mem_map_of_mem h)
+        have : (p.1 == q.1) = false := by simpa using hne
+        rw [this]
+        exact lookup_renamed ρ r hnd.2 p h
+
+theorem setRegs_renamed (regs : Regs) (env : Env) (a : AccId) (fs : List (Field × Var)) (ρ : Var → Var)
+    (hnd : (fs.map (·.1)).Nodup) : ∀ p ∈ fs, setRegs regs env a (fs.map fun q => (q.1, ρ q.2)) a p.1 = env (ρ p.2) := by
+  intro p hp
+  simp only [setRegs, if_true, lookup_renamed ρ fs hnd p hp]
+
+
+/-! ### the rotation -/
+
+theorem cloneChain_props : ∀ (chain : List Stmt) (m : List (Var × Var)) (F : Nat),
+    F ≤ (cloneChain chain m F).2.2 ∧ (cloneChain chain m F).1.all isPure = true
+  | [], m, F => by simp [cloneChain]
+  | s :: r, m, F => by
+      cases s
+      case pure d op args =>
+        have ih := cloneChain_props r ((d, F) :: m) (F + 1)
+        simp only [cloneChain, List.all_cons, isPure, Bool.true_and]
+        exact ⟨Nat.le_trans (Nat.le_succ F) ih.1, ih.2⟩
+      all_goals
+        simpa [cloneChain] using cloneChain_props r m F
+
+theorem iterFrom_congr_idx {σ} (f g : Nat → σ → σ) (P : Nat → σ → Prop)
+    (h : ∀ k x, P k x → g k x = f k x ∧ P (k + 1) (f k x)) : ∀ n k s, P k s → iterFrom g n k s = iterFrom f n k s
+  | 0, _, _, _ => rfl
+  | n+1, k, s, hp => by
+      simp only [iterFrom]
+      rw [(h k s hp).1]
+      exact iterFrom_congr_idx f g P h n (k + 1) (f k s) (h k s hp).2
+
+theorem execL_append (gh : Bool) (l1 l2 : List Stmt) (st : St) :
+    execB cfg gh (Block.ofList (l1 ++ l2)) st = execB cfg gh (Block.ofList l2) (execB cfg gh (Block.ofList l1) st) := by
+  rw [ofList_append, execB_append]
+
+/-- the side conditions of the rotation, unpacked -/
+structure RotSide (fs : List (Field × Var)) (pre after : List Stmt) (lb ub st iv : Var) (fresh : Nat) : Prop where
+  hpure : pre.all isPure = true
+  hssa : pureSSA pre = true
+  hiv : iv ∉ pre.flatMap pureDef
+  hnd : (fs.map (·.1)).Nodup
+  hcl : closedChain (pre.flatMap pureDef) iv (inputChain pre.reverse (fs.map (·.2))) [iv] = true
+  hcov : ∀ x ∈ fs.map (·.2), x ∈ iv :: (inputChain pre.reverse (fs.map (·.2))).flatMap pureDef ∨ x ∉ pre.flatMap pureDef
+  hst : st ∉ pre.flatMap pureDef ++ defsB (Block.ofList after)
+  hivb : iv ∉ pre.flatMap pureDef ++ defsB (Block.ofList after)
+  hne : st ≠ iv
+  hlt : ∀ x ∈ [lb, ub, st, iv] ++ (pre.flatMap pureDef ++ defsB (Block.ofList after)) ++ readsB (Block.ofList (pre ++ after))
+      ++ fs.map (·.2), x < fresh
+
+theorem loopSide_unpack {a : AccId} {fs : List (Field × Var)} {pre after : List Stmt} {lb ub st iv : Var} {fresh : Nat}
+    (h : loopSide a fs pre after lb ub st iv fresh = true) : RotSide fs pre after lb ub st iv fresh := by
+  simp only [loopSide, Bool.and_eq_true, Bool.not_eq_true', List.contains_eq_mem, decide_eq_false_iff_not,
+    decide_eq_true_eq, bne_iff_ne, ne_eq] at h
+  obtain ⟨⟨⟨⟨⟨⟨⟨⟨⟨h1, h2⟩, h3⟩, h4⟩, h5⟩, h6⟩, h7⟩, h8⟩, h9⟩, h10⟩ := h
+  refine ⟨h1, h2, h3, h4, h5, ?_, h7, h8, h9, ?_⟩
+  · intro x hx
+    have := (List.all_eq_true.mp h6) x hx
+    simp only [Bool.or_eq_true, List.contains_eq_mem, decide_eq_true_eq, Bool.not_eq_true', decide_eq_false_iff_not] at this
+    exact this
+  · intro x hx
+    have := (List.all_eq_true.mp h10) x hx
+    simpa using this
+
+
+theorem mem_readsB_ofList : ∀ (l : List Stmt) (s : Stmt) (y : Var), s ∈ l → y ∈ readsS s → y ∈ readsB (Block.ofList l)
+  | [], _, _, h, _ => by cases h
+  | t :: r, s, y, h, hy => by
+      simp only [Block.ofList, readsB, List.mem_append]
+      rcases List.mem_cons.mp h with h | h
+      · subst h; exact Or.inl hy
+      · exact Or.inr (mem_readsB_ofList r s y h hy)
+
+theorem pureArgs_sub_reads (s : Stmt) (y : Var) (h : y ∈ pureArgs s) : y ∈ readsS s := by
+  cases s <;> simp_all [pureArgs, readsS]
+
+theorem exec_setup_noop (gh : Bool) (a : AccId) (fs : List (Field × Var)) (rest : List Stmt) (w : St)
+    (h : ∀ p ∈ fs, w.regs a p.1 = w.env p.2) :
+    execB cfg gh (Block.ofList (Stmt.setup a fs :: rest)) w = execB cfg gh (Block.ofList rest) w := by
+  simp only [Block.ofList, execB, execS]
+  rw [setRegs_noop _ _ _ _ h]
+
+theorem succ_mul_step (L T : Int) (k : Nat) : L + (k : Int) * T + T = L + ((k + 1 : Nat) : Int) * T := by
+  rw [Int.natCast_add, Int.add_mul, Int.add_assoc]; simp
+
+set_option maxHeartbeats 400000 in
+/-- **rotation of the first setup of a loop body.** After the cloned chain and the setup copy evaluated at the lower bound,
+the loop whose body lost its first setup but ends with the copy evaluated at `iv + step` runs exactly like the loop that
+still has it: at every iteration head the registers already hold what the setup would write. -/
+theorem rot_loop (gh : Bool) (a : AccId) (fs : List (Field × Var)) (pre after : List Stmt) (lb ub st iv : Var) (fresh : Nat)
+    (hs : RotSide fs pre after lb ub st iv fresh)
+    (c0l c1l : List Stmt) (m0 m1 : List (Var × Var)) (next f1 : Nat)
+    (hc0 : cloneChain (inputChain pre.reverse (fs.map (·.2))) [(iv, lb)] fresh = (c0l, m0, next))
+    (hc1 : cloneChain (inputChain pre.reverse (fs.map (·.2))) [(iv, next)] (next + 1) = (c1l, m1, f1))
+    (u : St) :
+    execS cfg gh (.forS lb ub st iv (Block.ofList (pre ++ (after ++ ((Stmt.pure next .add [iv, st] :: c1l) ++
+        [Stmt.setup a (fs.map fun p => (p.1, renameVar m1 p.2))])))))
+      (execB cfg gh (Block.ofList (c0l ++ [Stmt.setup a (fs.map fun p => (p.1, renameVar m0 p.2))])) u)
+    = execS cfg gh (.forS lb ub st iv (Block.ofList (pre ++ (Stmt.setup a fs :: (after ++ ((Stmt.pure next .add [iv, st] :: c1l) ++
+        [Stmt.setup a (fs.map fun p => (p.1, renameVar m1 p.2))]))))))
+      (execB cfg gh (Block.ofList (c0l ++ [Stmt.setup a (fs.map fun p => (p.1, renameVar m0 p.2))])) u) := by
+  -- facts about the fresh ids and the variables of the loop
+  have hfn : fresh ≤ next := by
+    have := (cloneChain_props (inputChain pre.reverse (fs.map (·.2))) [(iv, lb)] fresh).1; rw [hc0] at this; exact this
+  have hp0 : c0l.all isPure = true := by
+    have := (cloneChain_props (inputChain pre.reverse (fs.map (·.2))) [(iv, lb)] fresh).2; rw [hc0] at this; exact this
+  have hp1 : c1l.all isPure = true := by
+    have := (cloneChain_props (inputChain pre.reverse (fs.map (·.2))) [(iv, next)] (next + 1)).2; rw [hc1] at this; exact this
+  have lt_lb : lb < fresh := hs.hlt lb (by simp)
+  have lt_st : st < fresh := hs.hlt st (by simp)
+  have lt_iv : iv < fresh := hs.hlt iv (by simp)
+  have hreads : ∀ s ∈ pre, ∀ y ∈ pureArgs s, y < fresh := fun s hsm y hy =>
+    hs.hlt y (by
+      have := mem_readsB_ofList (pre ++ after) s y (List.mem_append_left _ hsm) (pureArgs_sub_reads s y hy)
+      simp only [List.mem_append]; exact Or.inl (Or.inr this))
+  have hneed : ∀ x ∈ fs.map (·.2), x < fresh := fun x hx => hs.hlt x (by simp only [List.mem_append]; exact Or.inr hx)
+  have hpd : ∀ x ∈ pre.flatMap pureDef, x < fresh := fun x hx =>
+    hs.hlt x (by simp only [List.mem_append]; exact Or.inl (Or.inl (Or.inr (Or.inl hx))))
+  have hargs : ∀ x ∈ pre.flatMap pureArgs, x < fresh := fun x hx => by
+    obtain ⟨s, hsm, hy⟩ := List.mem_flatMap.mp hx
+    exact hreads s hsm x hy
+  have hiv_after : iv ∉ defsB (Block.ofList after) := fun h => hs.hivb (List.mem_append_right _ h)
+  have hst_after : st ∉ defsB (Block.ofList after) := fun h => hs.hst (List.mem_append_right _ h)
+  have hst_pre : st ∉ pre.flatMap pureDef := fun h => hs.hst (List.mem_append_left _ h)
+  -- the clones in front of the loop
+  have hcc0 := clone_correct cfg pre (fs.map (·.2)) iv lb u.env fresh hs.hssa hs.hiv hs.hcl hs.hcov lt_lb hreads hneed
+  rw [hc0] at hcc0
+  -- the state at the loop
+  have hw0 : execB cfg gh (Block.ofList (c0l ++ [Stmt.setup a (fs.map fun p => (p.1, renameVar m0 p.2))])) u
+      = { u with env := runPure cfg c0l u.env,
+                 regs := setRegs u.regs (runPure cfg c0l u.env) a (fs.map fun p => (p.1, renameVar m0 p.2)) } := by
+    rw [execL_append, exec_pure_list cfg gh c0l hp0]
+    simp [Block.ofList, execB, execS]
+  rw [hw0]
+  simp only [execS]
+  apply iterFrom_congr_idx _ _
+    (fun k x => x.env st = runPure cfg c0l u.env st ∧
+      ∀ p ∈ fs, x.regs a p.1 = runPure cfg pre (setEnv x.env iv (runPure cfg c0l u.env lb + (k : Int) * runPure cfg c0l u.env st)) p.2)
+  · -- one iteration
+    intro k x ⟨hxst, hinv⟩
+    -- after `pre`
+    have hw1 := exec_pure_list cfg gh pre hs.hpure
+      { x with env := setEnv x.env iv (runPure cfg c0l u.env lb + (k : Int) * runPure cfg c0l u.env st) }
+    have hb1 : ∀ rest, execB cfg gh (Block.ofList (pre ++ rest))
+          { x with env := setEnv x.env iv (runPure cfg c0l u.env lb + (k : Int) * runPure cfg c0l u.env st) }
+        = execB cfg gh (Block.ofList rest)
+          { x with env := runPure cfg pre (setEnv x.env iv (runPure cfg c0l u.env lb + (k : Int) * runPure cfg c0l u.env st)) } :=
+      fun rest => by rw [execL_append, hw1]
+    have hb2 : ∀ rest, execB cfg gh (Block.ofList (pre ++ (Stmt.setup a fs :: rest)))
+          { x with env := setEnv x.env iv (runPure cfg c0l u.env lb + (k : Int) * runPure cfg c0l u.env st) }
+        = execB cfg gh (Block.ofList rest)
+          { x with env := runPure cfg pre (setEnv x.env iv (runPure cfg c0l u.env lb + (k : Int) * runPure cfg c0l u.env st)) } :=
+      fun rest => by
+        rw [execL_append, hw1]
+        exact exec_setup_noop cfg gh a fs rest _ hinv
+    constructor
+    · rw [hb1, hb2]
+    · rw [hb2]
+      rw [execL_append, execL_append,
+        exec_pure_list cfg gh (Stmt.pure next PureOp.add [iv, st] :: c1l) (by simp [isPure, hp1])]
+      -- the state after `after`
+      generalize hw2 : execB cfg gh (Block.ofList after)
+        { x with env := runPure cfg pre (setEnv x.env iv (runPure cfg c0l u.env lb + (k : Int) * runPure cfg c0l u.env st)) } = w2
+      have h2iv : w2.env iv = runPure cfg c0l u.env lb + (k : Int) * runPure cfg c0l u.env st := by
+        rw [← hw2, envB_frame cfg gh _ iv hiv_after]
+        show runPure cfg pre _ iv = _
+        rw [runPure_frame cfg pre _ iv hs.hiv]; simp [setEnv]
+      have h2st : w2.env st = runPure cfg c0l u.env st := by
+        rw [← hw2, envB_frame cfg gh _ st hst_after]
+        show runPure cfg pre _ st = _
+        rw [runPure_frame cfg pre _ st hst_pre]; simp [setEnv, hs.hne, hxst]
+      -- the clones at the end of the body
+      have hcc1 := clone_correct cfg pre (fs.map (·.2)) iv next
+        (setEnv w2.env next (w2.env iv + w2.env st)) (next + 1) hs.hssa hs.hiv hs.hcl hs.hcov (Nat.lt_succ_self _)
+        (fun s hsm y hy => Nat.lt_succ_of_le (Nat.le_trans (Nat.le_of_lt (hreads s hsm y hy)) hfn))
+        (fun y hy => Nat.lt_succ_of_le (Nat.le_trans (Nat.le_of_lt (hneed y hy)) hfn))
+      rw [hc1] at hcc1
+      simp only [Block.ofList, execB, execS, runPure, stepPure, PureOp.eval, List.map]
+      have hbelow : ∀ y, y < fresh → runPure cfg c1l (setEnv w2.env next (w2.env iv + w2.env st)) y = w2.env y := by
+        intro y hy
+        rw [hcc1.2 y (Nat.lt_succ_of_le (Nat.le_trans (Nat.le_of_lt hy) hfn))]
+        simp only [setEnv]
+        rw [if_neg (Nat.ne_of_lt (Nat.lt_of_lt_of_le hy hfn))]
+      refine ⟨?_, ?_⟩
+      · show runPure cfg c1l _ st = _
+        rw [hbelow st lt_st, h2st]
+      · intro p hp
+        rw [setRegs_renamed _ _ _ _ _ hs.hnd p hp]
+        rw [hcc1.1 p.2 (List.mem_map_of_mem hp)]
+        apply runPure_congr
+        · intro y hy
+          have hyl := hargs y hy
+          simp only [setEnv]
+          split
+          · simp only [if_true, h2iv, h2st]
+            exact succ_mul_step _ _ k
+          · rw [hbelow y hyl]
+            rw [if_neg (Nat.ne_of_lt (Nat.lt_of_lt_of_le hyl hfn))]
+        · have hyl := hneed p.2 (List.mem_map_of_mem hp)
+          simp only [setEnv]
+          split
+          · simp only [if_true, h2iv, h2st]
+            exact succ_mul_step _ _ k
+          · rw [hbelow p.2 hyl]
+            rw [if_neg (Nat.ne_of_lt (Nat.lt_of_lt_of_le hyl hfn))]
+        · intro y hy
+          have hyl := hpd y hy
+          simp only [setEnv]
+          split
+          · simp only [if_true, h2iv, h2st]
+            exact succ_mul_step _ _ k
+          · rw [hbelow y hyl]
+            rw [if_neg (Nat.ne_of_lt (Nat.lt_of_lt_of_le hyl hfn))]
+  · -- the invariant holds when the loop is entered
+    refine ⟨rfl, ?_⟩
+    intro p hp
+    show setRegs u.regs (runPure cfg c0l u.env) a (fs.map fun p => (p.1, renameVar m0 p.2)) a p.1 = _
+    rw [setRegs_renamed _ _ _ _ _ hs.hnd p hp, hcc0.1 p.2 (List.mem_map_of_mem hp)]
+    apply runPure_congr
+    · intro y hy
+      simp only [setEnv]
+      split
+      · rw [hcc0.2 lb lt_lb]; simp
+      · rw [hcc0.2 y (hargs y hy)]
+    · simp only [setEnv]
+      split
+      · rw [hcc0.2 lb lt_lb]; simp
+      · rw [hcc0.2 p.2 (hneed p.2 (List.mem_map_of_mem hp))]
+    · intro y hy
+      simp only [setEnv]
+      split
+      · rw [hcc0.2 lb lt_lb]; simp
+      · rw [hcc0.2 y (hpd y hy)]
+
+
+/-! ### the three program variants of the proof and the relations between them -/
+
+theorem loopOverlapGen_zero {keep ghost chk : Bool} {j fresh : Nat} {F : Facts} {s : Stmt} {r b1 : Block}
+    (h : loopOverlapGen keep ghost chk j fresh F (.cons s r) 0 = some b1) :
+    ∃ lb ub st iv body a fs after, s = .forS lb ub st iv body ∧ body.toList.drop j = .setup a fs :: after ∧
+      rotGuard chk a fs (body.toList.take j) after lb ub st iv fresh = true ∧
+      b1 = rotWindow keep ghost a fs (body.toList.take j) after lb ub st iv fresh r := by
+  simp only [loopOverlapGen] at h
+  split at h
+  · next lb ub st iv body =>
+    split at h
+    · next a fs after hdrop =>
+      split at h
+      · next hg =>
+        injection h with h
+        exact ⟨lb, ub, st, iv, body, a, fs, after, rfl, hdrop, hg, h.symm⟩
+      · cases h
+    · cases h
+  · cases h
+
+theorem loopOverlapGen_zero_intro (keep ghost chk : Bool) (j fresh : Nat) (F : Facts) (lb ub st iv : Var) (body r : Block)
+    (a : AccId) (fs : List (Field × Var)) (after : List Stmt) (hdrop : body.toList.drop j = .setup a fs :: after)
+    (hg : rotGuard chk a fs (body.toList.take j) after lb ub st iv fresh = true) :
+    loopOverlapGen keep ghost chk j fresh F (.cons (.forS lb ub st iv body) r) 0
+      = some (rotWindow keep ghost a fs (body.toList.take j) after lb ub st iv fresh r) := by
+  simp only [loopOverlapGen, hdrop, hg, if_true]
+
+/-- transfer between two variants of the rewrite: same guards, related windows -/
+theorem gen_transfer (chk k1 g1 k2 g2 : Bool) (j fresh : Nat) (Rel : Block → Block → Prop)
+    (hcons : ∀ s x y, Rel x y → Rel (.cons s x) (.cons s y))
+    (hwin : ∀ a fs pre after lb ub st iv r, rotGuard chk a fs pre after lb ub st iv fresh = true →
+      Rel (rotWindow k1 g1 a fs pre after lb ub st iv fresh r) (rotWindow k2 g2 a fs pre after lb ub st iv fresh r))
+    (F : Facts) : ∀ (b : Block) (i : Nat) (b1 : Block), loopOverlapGen k1 g1 chk j fresh F b i = some b1 →
+      ∃ b2, loopOverlapGen k2 g2 chk j fresh F b i = some b2 ∧ Rel b1 b2
+  | .nil, _, _, h => by simp [loopOverlapGen] at h
+  | .cons s r, 0, b1, h => by
+      obtain ⟨lb, ub, st, iv, body, a, fs, after, rfl, hdrop, hg, rfl⟩ := loopOverlapGen_zero h
+      exact ⟨_, loopOverlapGen_zero_intro k2 g2 chk j fresh F lb ub st iv body r a fs after hdrop hg, hwin _ _ _ _ _ _ _ _ _ hg⟩
+  | .cons s r, i+1, b1, h => by
+      simp only [loopOverlapGen, Option.map_eq_some_iff] at h
+      obtain ⟨r1, hr1, rfl⟩ := h
+      obtain ⟨r2, hr2, hrel⟩ := gen_transfer chk k1 g1 k2 g2 j fresh Rel hcons hwin F r i r1 hr1
+      exact ⟨.cons s r2, by simp [loopOverlapGen, hr2], hcons s _ _ hrel⟩
+
+theorem rotGuard_side {a : AccId} {fs : List (Field × Var)} {pre after : List Stmt} {lb ub st iv : Var} {fresh : Nat}
+    (h : rotGuard true a fs pre after lb ub st iv fresh = true) : RotSide fs pre after lb ub st iv fresh := by
+  simp only [rotGuard, Bool.and_eq_true, Bool.not_true, Bool.false_or] at h
+  exact loopSide_unpack h.1.2
+
+theorem exec_window (gh : Bool) (l : List Stmt) (s : Stmt) (r : Block) (u : St) :
+    execB cfg gh ((Block.ofList (l ++ [s])).append r) u
+      = execB cfg gh r (execS cfg gh s (execB cfg gh (Block.ofList l) u)) := by
+  rw [execB_append, execL_append]; rfl
+
+/-- (C) erasing the original setup from the rotated loop changes nothing -/
+theorem rot_erase_orig (gh : Bool) (j fresh : Nat) :
+    LocalRel cfg gh (loopOverlapGen false false true j fresh) (loopOverlapGen true false true j fresh) := by
+  intro F b i b1 h
+  refine gen_transfer true false false true false j fresh (fun x y => ∀ st, execB cfg gh x st = execB cfg gh y st)
+    (fun s x y hxy st => by simp only [execB]; exact hxy _) ?_ F b i b1 h
+  intro a fs pre after lb ub st iv r hg u
+  have hs := rotGuard_side hg
+  have key := rot_loop cfg gh a fs pre after lb ub st iv fresh hs _ _ _ _ _ _ rfl rfl u
+  simp only [rotWindow, Bool.false_eq_true, if_false, if_true]
+  rw [exec_window, exec_window]
+  exact congrArg (execB cfg gh r) key
+
+
+theorem forS_congr (gh : Bool) (lb ub st iv : Var) (b1 b2 : Block) (h : ∀ u, execB cfg gh b1 u = execB cfg gh b2 u) (w : St) :
+    execS cfg gh (.forS lb ub st iv b1) w = execS cfg gh (.forS lb ub st iv b2) w := by
+  simp only [execS]
+  have : (fun (i : Nat) (u : St) => execB cfg gh b1 { u with env := setEnv u.env iv (w.env lb + ↑i * w.env st) })
+       = (fun (i : Nat) (u : St) => execB cfg gh b2 { u with env := setEnv u.env iv (w.env lb + ↑i * w.env st) }) := by
+    funext i u; exact h _
+  rw [this]
+
+theorem exec_unghost_last (l : List Stmt) (a : AccId) (x : List (Field × Var)) (u : St) :
+    execB cfg true (Block.ofList (l ++ [Stmt.setup a x])) u = execB cfg true (Block.ofList (l ++ [Stmt.ghost a x])) u := by
+  rw [execL_append, execL_append]
+  simp [Block.ofList, execB, execS]
+
+/-- (B') when ghosts are executed, making the two copies ghosts changes nothing -/
+theorem rot_ghost_copies (j fresh : Nat) :
+    LocalRel cfg true (loopOverlapGen true false true j fresh) (loopOverlapGen true true true j fresh) := by
+  intro F b i b1 h
+  refine gen_transfer true true false true true j fresh (fun x y => ∀ st, execB cfg true x st = execB cfg true y st)
+    (fun s x y hxy st => by simp only [execB]; exact hxy _) ?_ F b i b1 h
+  intro a fs pre after lb ub st iv r _ u
+  simp only [rotWindow, Bool.false_eq_true, if_false, if_true]
+  rw [exec_window, exec_window, exec_unghost_last]
+  congr 1
+  apply forS_congr
+  intro w
+  have e1 : ∀ (s1 : Stmt) (c : List Stmt) (n : Stmt), pre ++ ([Stmt.setup a fs] ++ (after ++ ((n :: c) ++ [s1])))
+      = (pre ++ ([Stmt.setup a fs] ++ (after ++ (n :: c)))) ++ [s1] := by
+    intro s1 c n; simp only [List.append_assoc]
+  rw [e1, e1, exec_unghost_last]
+
+
+/-! ### (A) the cloned chains and ghost copies are invisible when ghosts are not executed -/
+
+/-- a local rewrite whose result simulates the original block up to the variables in `D` -/
+def LocalSim (D : Var → Prop) (rw : Facts → Block → Nat → Option Block) : Prop :=
+  ∀ F blk i blk', rw F blk i = some blk' → (∀ x ∈ readsB blk, ¬ D x) →
+    ∀ u v, EqOff D u v → EqOff D (execB cfg false blk' u) (execB cfg false blk v)
+
+mutual
+theorem posS_sim (D : Var → Prop) {rw : Facts → Block → Nat → Option Block} (hl : LocalSim cfg D rw) :
+    (s : Stmt) → ∀ (k : Nat) (p : List Nat) (F : Facts) (s' : Stmt), rewriteS rw k p s F = some s' →
+    (∀ x ∈ readsS s, ¬ D x) → ∀ u v, EqOff D u v → EqOff D (execS cfg false s' u) (execS cfg false s v)
+  | .ifS c t e, k, p, F, s', h, hr, u, v, huv => by
+      simp only [rewriteS] at h
+      simp only [readsS, List.mem_cons, List.mem_append] at hr
+      have hc : u.env c = v.env c := huv.2.2 c (hr c (Or.inl rfl))
+      split at h
+      · simp only [Option.map_eq_some_iff] at h
+        obtain ⟨t', ht, rfl⟩ := h
+        simp only [execS, hc]
+        split
+        · exact posB_sim D hl t p F t' ht (fun x hx => hr x (Or.inr (Or.inl hx))) u v huv
+        · exact sameB_sim cfg D e (fun x hx => hr x (Or.inr (Or.inr hx))) u v huv
+      · split at h
+        · simp only [Option.map_eq_some_iff] at h
+          obtain ⟨e', he, rfl⟩ := h
+          simp only [execS, hc]
+          split
+          · exact sameB_sim cfg D t (fun x hx => hr x (Or.inr (Or.inl hx))) u v huv
+          · exact posB_sim D hl e p F e' he (fun x hx => hr x (Or.inr (Or.inr hx))) u v huv
+        · cases h
+  | .forS lb ub step iv b, k, p, F, s', h, hr, u, v, huv => by
+      simp only [rewriteS] at h
+      split at h
+      · simp only [Option.map_eq_some_iff] at h
+        obtain ⟨b', hb, rfl⟩ := h
+        simp only [readsS, List.mem_cons] at hr
+        have h1 : u.env lb = v.env lb := huv.2.2 lb (hr lb (Or.inl rfl))
+        have h2 : u.env ub = v.env ub := huv.2.2 ub (hr ub (Or.inr (Or.inl rfl)))
+        have h3 : u.env step = v.env step := huv.2.2 step (hr step (Or.inr (Or.inr (Or.inl rfl))))
+        simp only [execS, h1, h2, h3]
+        exact iterFrom_rel
+          (fun i x => execB cfg false b' { x with env := Accfg.setEnv x.env iv (v.env lb + ↑i * v.env step) })
+          (fun i y => execB cfg false b { y with env := Accfg.setEnv y.env iv (v.env lb + ↑i * v.env step) }) (EqOff D)
+          (fun i x y hxy => posB_sim D hl b p _ b' hb (fun z hz => hr z (Or.inr (Or.inr (Or.inr hz)))) _ _
+            (hxy.setEnv iv (v.env lb + ↑i * v.env step)))
+          _ 0 u v huv
+      · cases h
+  | .setup _ _, _, _, _, _, h, _, _, _, _ => by simp [rewriteS] at h
+  | .ghost _ _, _, _, _, _, h, _, _, _, _ => by simp [rewriteS] at h
+  | .launch _ _, _, _, _, _, h, _, _, _, _ => by simp [rewriteS] at h
+  | .await _, _, _, _, _, h, _, _, _, _ => by simp [rewriteS] at h
+  | .pure _ _ _, _, _, _, _, h, _, _, _, _ => by simp [rewriteS] at h
+  | .call _ _, _, _, _, _, h, _, _, _, _ => by simp [rewriteS] at h
+theorem posB_sim (D : Var → Prop) {rw : Facts → Block → Nat → Option Block} (hl : LocalSim cfg D rw) :
+    (b : Block) → ∀ (path : List Nat) (F : Facts) (b' : Block), rewriteB rw path b F = some b' →
+    (∀ x ∈ readsB b, ¬ D x) → ∀ u v, EqOff D u v → EqOff D (execB cfg false b' u) (execB cfg false b v)
+  | b, [i], F, b', h, hr, u, v, huv => by
+      simp only [rewriteB] at h
+      exact hl F b i b' h hr u v huv
+  | .cons s r, 0 :: k :: p, F, b', h, hr, u, v, huv => by
+      simp only [rewriteB, Option.map_eq_some_iff] at h
+      obtain ⟨s', hs', rfl⟩ := h
+      simp only [readsB, List.mem_append] at hr
+      simp only [execB]
+      exact sameB_sim cfg D r (fun x hx => hr x (Or.inr hx)) _ _
+        (posS_sim D hl s k p F s' hs' (fun x hx => hr x (Or.inl hx)) u v huv)
+  | .cons s r, (i+1) :: k :: p, F, b', h, hr, u, v, huv => by
+      simp only [rewriteB, Option.map_eq_some_iff] at h
+      obtain ⟨r', hr', rfl⟩ := h
+      simp only [readsB, List.mem_append] at hr
+      simp only [execB]
+      exact posB_sim D hl r (i :: k :: p) _ r' hr' (fun x hx => hr x (Or.inr hx)) _ _
+        (sameS_sim cfg D s (fun x hx => hr x (Or.inl hx)) u v huv)
+  | .nil, [], _, _, h, _, _, _, _ => by simp [rewriteB] at h
+  | .nil, _ :: _ :: _, _, _, h, _, _, _, _ => by simp [rewriteB] at h
+  | .cons _ _, [], _, _, h, _, _, _, _ => by simp [rewriteB] at h
+end
+
+theorem cloneChain_defs_ge : ∀ (chain : List Stmt) (m : List (Var × Var)) (F : Nat),
+    ∀ x ∈ (cloneChain chain m F).1.flatMap pureDef, F ≤ x
+  | [], m, F => by simp [cloneChain]
+  | s :: r, m, F => by
+      cases s
+      case pure d op args =>
+        intro x hx
+        simp only [cloneChain, List.flatMap_cons, pureDef, List.mem_append, List.mem_singleton] at hx
+        rcases hx with hx | hx
+        · exact Nat.le_of_eq hx.symm
+        · exact Nat.le_trans (Nat.le_succ F) (cloneChain_defs_ge r ((d, F) :: m) (F + 1) x hx)
+      all_goals
+        simpa [cloneChain] using cloneChain_defs_ge r m F
+
+/-- extra pure statements on the left, defining only variables in `D`, followed by a ghost that is not executed -/
+theorem pure_extra_left (D : Var → Prop) (l : List Stmt) (a : AccId) (g : List (Field × Var)) (hp : l.all isPure = true)
+    (hD : ∀ x ∈ l.flatMap pureDef, D x) (u v : St) (h : EqOff D u v) :
+    EqOff D (execB cfg false (Block.ofList (l ++ [Stmt.ghost a g])) u) v := by
+  rw [execL_append, exec_pure_list cfg false l hp]
+  simp only [Block.ofList, execB, execS, Bool.false_eq_true, if_false]
+  refine ⟨h.1, h.2.1, fun x hx => ?_⟩
+  show runPure cfg l u.env x = v.env x
+  rw [runPure_frame cfg l _ x (fun hm => hx (hD x hm))]
+  exact h.2.2 x hx
+
+theorem list_reassoc (pre : List Stmt) (S : Stmt) (after : List Stmt) (n : Stmt) (c : List Stmt) (g : Stmt) :
+    pre ++ ([S] ++ (after ++ ((n :: c) ++ [g]))) = (pre ++ (S :: after)) ++ ((n :: c) ++ [g]) := by simp
+
+theorem rot_sim_aux (j fresh : Nat) : (blk : Block) → ∀ (F : Facts) (i : Nat) (blk' : Block),
+    loopOverlapGen true true true j fresh F blk i = some blk' → (∀ x ∈ readsB blk, ¬ fresh ≤ x) →
+    ∀ u v, EqOff (fun x => fresh ≤ x) u v → EqOff (fun x => fresh ≤ x) (execB cfg false blk' u) (execB cfg false blk v)
+  | .nil, _, _, _, h, _, _, _, _ => by simp [loopOverlapGen] at h
+  | .cons s r, F, i+1, blk', h, hr, u, v, huv => by
+      simp only [loopOverlapGen, Option.map_eq_some_iff] at h
+      obtain ⟨r1, hr1, rfl⟩ := h
+      simp only [readsB, List.mem_append] at hr
+      simp only [execB]
+      exact rot_sim_aux j fresh r F i r1 hr1 (fun x hx => hr x (Or.inr hx)) _ _
+        (sameS_sim cfg _ s (fun x hx => hr x (Or.inl hx)) u v huv)
+  | .cons s r, F, 0, blk', h, hr, u, v, huv => by
+      obtain ⟨lb, ub, st, iv, body, a, fs, after, rfl, hdrop, hg, rfl⟩ := loopOverlapGen_zero h
+      simp only [readsB, readsS, List.mem_append, List.mem_cons] at hr
+      have hbody : body = Block.ofList (body.toList.take j ++ (Stmt.setup a fs :: after)) := by
+        rw [← hdrop, List.take_append_drop, ofList_toList]
+      -- names for the clones
+      have hfn := (cloneChain_props (inputChain (body.toList.take j).reverse (fs.map (·.2))) [(iv, lb)] fresh).1
+      have hp0 := (cloneChain_props (inputChain (body.toList.take j).reverse (fs.map (·.2))) [(iv, lb)] fresh).2
+      have hd0 := cloneChain_defs_ge (inputChain (body.toList.take j).reverse (fs.map (·.2))) [(iv, lb)] fresh
+      simp only [rotWindow, if_true]
+      rw [exec_window]
+      simp only [execB]
+      apply sameB_sim cfg _ r (fun x hx => hr x (Or.inr hx))
+      -- in front of the loop
+      have hu1 := pure_extra_left cfg (fun x => fresh ≤ x) _ a
+        (fs.map fun p => (p.1, renameVar (cloneChain (inputChain (body.toList.take j).reverse (fs.map (·.2))) [(iv, lb)] fresh).2.1 p.2))
+        hp0 hd0 u v huv
+      generalize execB cfg false (Block.ofList ((cloneChain (inputChain (body.toList.take j).reverse (fs.map (·.2))) [(iv, lb)] fresh).1 ++
+        [Stmt.ghost a (fs.map fun p => (p.1, renameVar (cloneChain (inputChain (body.toList.take j).reverse (fs.map (·.2))) [(iv, lb)] fresh).2.1 p.2))])) u = u1 at hu1 ⊢
+      -- the loop
+      have h1 : u1.env lb = v.env lb := hu1.2.2 lb (hr lb (Or.inl (Or.inl rfl)))
+      have h2 : u1.env ub = v.env ub := hu1.2.2 ub (hr ub (Or.inl (Or.inr (Or.inl rfl))))
+      have h3 : u1.env st = v.env st := hu1.2.2 st (hr st (Or.inl (Or.inr (Or.inr (Or.inl rfl)))))
+      simp only [execS, h1, h2, h3]
+      apply iterFrom_rel _ _ (EqOff (fun x => fresh ≤ x)) _ _ 0 u1 v hu1
+      intro k x y hxy
+      have hxy' := hxy.setEnv iv (v.env lb + ↑k * v.env st)
+      rw [list_reassoc, execL_append, ← hbody]
+      apply pure_extra_left cfg (fun x => fresh ≤ x)
+      · simp only [List.all_cons, isPure, Bool.true_and]
+        exact (cloneChain_props _ _ _).2
+      · intro z hz
+        simp only [List.flatMap_cons, pureDef, List.mem_append, List.mem_singleton] at hz
+        rcases hz with hz | hz
+        · rw [hz]; exact hfn
+        · exact Nat.le_trans hfn (Nat.le_trans (Nat.le_succ _) (cloneChain_defs_ge _ _ _ z hz))
+      · exact sameB_sim cfg _ body (fun z hz => hr z (Or.inl (Or.inr (Or.inr (Or.inr hz))))) _ _ hxy'
+
+theorem rot_sim (j fresh : Nat) : LocalSim cfg (fun x => fresh ≤ x) (loopOverlapGen true true true j fresh) :=
+  fun F blk i blk' h hr u v huv => rot_sim_aux cfg j fresh blk F i blk' h hr u v huv
+
+
+/-! ### the loop-level overlap step -/
+
+/-- **loop-level overlap.** `b'` is the result of the rotation, `b2` the variant that keeps the original setup, `bg` the
+variant whose two copies are ghosts.  If `bg` is well formed and keeps every launch total and the program reads no variable
+from `fresh` on, then `b'` and `b` have the same trace from every state. -/
+theorem loop_overlap_trace (path : List Nat) (j fresh : Nat) (b b' b2 bg : Block)
+    (h' : applyLoopOverlapGen false false path j fresh b = some b')
+    (h2 : applyLoopOverlapGen true false path j fresh b = some b2)
+    (hg : applyLoopOverlapGen true true path j fresh b = some bg)
+    (hng : noGhostB b2 = true) (hwfg : wfB bg = true) (hok : okBb cfg.fields bg noFacts = true)
+    (hreads : ∀ x ∈ readsB b, x < fresh) (st : St) :
+    (execB cfg false b' st).tr = (execB cfg false b st).tr := by
+  unfold applyLoopOverlapGen at h' h2 hg
+  -- (C) the original setup can stay
+  obtain ⟨b2', hb2', e1⟩ := rewriteB_rel cfg (rot_erase_orig cfg false j fresh) b path noFacts b' h'
+  rw [h2] at hb2'; injection hb2' with hb2'; subst hb2'
+  -- (B') the copies become ghosts (ghosts executed)
+  obtain ⟨bg', hbg', e2⟩ := rewriteB_rel cfg (rot_ghost_copies cfg j fresh) b path noFacts b2 h2
+  rw [hg] at hbg'; injection hbg' with hbg'; subst hbg'
+  -- (B) ghost writes are unobservable, (A) the clones are invisible
+  have e3 := ghost_writes_unobservable cfg bg hwfg (okBb_ok cfg bg noFacts hok) st
+  have e4 := posB_sim cfg (fun x => fresh ≤ x) (rot_sim cfg j fresh) b path noFacts bg hg
+    (fun x hx => Nat.not_le_of_lt (hreads x hx)) st st ⟨rfl, rfl, fun _ _ => rfl⟩
+  rw [e1 st, ← noGhostB_exec cfg b2 hng st, e2 st, e3, e4.2.1]
+
 end SnaxVerif.Accfg
